@@ -38,6 +38,9 @@ def corpus():
                                 {"kind": "multi", "reopen": False, "writers": [[W()] * 3, [], [W(1), W()]]},
                                 {"kind": "filler", "sub": [], "reopen": False, "ops": [W()]},
                                 {"kind": "multi", "reopen": True, "writers": [[W()]]}]},
+        # more than ten writers in one call (their directories must keep argument order), then one more call
+        {"eps": 2, "sessions": [{"kind": "multi", "reopen": False, "writers": [[W()] for _ in range(12)]},
+                                {"kind": "multi", "reopen": True, "writers": [[W(), W(1)], [W()], [W(1)]]}]},
         {"eps": 1, "sessions": [{"kind": "multi", "reopen": False, "writers": [[], []]},
                                 {"kind": "filler", "sub": [3], "reopen": False, "ops": []},
                                 {"kind": "filler", "sub": [3, 4, 5], "reopen": False, "ops": [W(2)]}]},
